@@ -674,6 +674,143 @@ def escapes(ctx, drv):
         ctx.nontriv(("escape", src))
 
 
+# --------------------------------------------------------------------------------------------- format_exceptions x entry point
+
+FE_FAMILIES = {
+    # name -> ({uri: source}, main uri); PRELUDE is prepended to every file
+    "plain": ({"m.html": "head ${boom()} mid<%def name='d()' buffered='True'>in${boom()}</%def>${d()} tail"}, "m.html"),
+    "call-capture": ({"m.html": "<%def name='w()'>[${caller.body()}]</%def><%def name='d()'>d${boom()}</%def>"
+                                "a<%call expr='w()'>b${capture(d)}${boom()}</%call>c"}, "m.html"),
+    "include": ({"m.html": "top<%include file='i.html'/>${boom()}end", "i.html": "inc${boom()}<%def name='q()' filter='trim'> q${boom()} </%def>${q()}"},
+                "m.html"),
+    "namespace": ({"m.html": "<%namespace name='n' file='lib.html'/>a${n.f()}b<%n:g>body${boom()}</%n:g>c",
+                   "lib.html": "<%def name='f()'>F${boom()}</%def><%def name='g()' buffered='True'>G${caller.body()}${boom()}</%def>"},
+                  "m.html"),
+    "inherit": ({"base.html": "BASE-HEAD${boom()}\n${self.body()}\n<%block name='bb'>basebb${boom()}</%block>${self.pd()}BASE-FOOT"
+                              "<%def name='pd()'>pd${boom()}</%def>",
+                 "m.html": "<%inherit file='base.html'/>child-start${boom()}<%def name='cd()' buffered='True'>cd${boom()}</%def>"
+                           "${cd()}<%block name='cb' filter='trim'> cb${boom()} </%block>child-end"}, "m.html"),
+    "inherit-override": ({"base.html": "B1<%block name='bb'>basebb</%block>${next.body()}B2${boom()}",
+                          "m.html": "<%inherit file='base.html'/><%block name='bb'>over${boom()}${parent.bb()}</%block>C${boom()}"},
+                         "m.html"),
+    "inherit-3": ({"top.html": "T[${next.body()}]${boom()}", "mid.html": "<%inherit file='top.html'/>M(${next.body()})${boom()}",
+                   "m.html": "<%inherit file='mid.html'/>L${boom()}<%def name='x()'>x${boom()}</%def>${x()}"}, "m.html"),
+}
+
+
+def format_exceptions_entries(ctx):
+    """unhandled exception x format_exceptions x entry point (render, render_unicode, render_context; with and
+    without output_encoding) x template relation (plain, include, namespace, inheritance chains; raise in child,
+    parent, block, def): with format_exceptions the result is the error page ONLY (nothing in front of it, the
+    exception named in it), without it the very exception object propagates.  Also: the context the failing
+    callable ran on shares its buffer-stack list with the caller's context (model: `renderErrorHeap`)."""
+    from mako.lookup import TemplateLookup
+    from mako.runtime import Context
+    from mako import util
+    import mako.runtime as R
+    so = ctx.stream("oracle.format_exceptions", "oracle")
+    st = ctx.stream("corr.shared_stack")
+
+    def page_only(text):
+        t = text.lstrip()
+        return t.startswith("<!DOCTYPE") or t.startswith("<html"), ("boom at evaluation point" in text)
+
+    for fam, (files, main) in FE_FAMILIES.items():
+        for enc_ in (None, "utf-8"):
+            Impl.serial += 1
+            pre = "f%d_" % Impl.serial
+            kw = {"output_encoding": enc_} if enc_ else {}
+            lk = TemplateLookup(cache_enabled=False, **kw)
+            for uri, src in files.items():
+                body = src
+                for u in files:
+                    body = body.replace("'%s'" % u, "'%s%s'" % (pre, u))
+                lk.put_string(pre + uri, rt.PRELUDE + body)
+            ts = [lk.get_template(pre + u) for u in files]
+            t = lk.get_template(pre + main)
+            rt.reset(-1)
+            try:
+                t.render_unicode()
+            except Exception as ex:      # noqa
+                ctx.broke("oracle.format_exceptions:" + fam, "family does not render crash-free: %r" % (ex,))
+                continue
+            total = rt.STATE.cnt
+            for k in range(total):
+                for fe in (True, False):
+                    for tt in ts:
+                        tt.format_exceptions = fe
+                        tt.error_handler = None
+                    for entry in ("render", "render_unicode", "render_context"):
+                        so["cases"] += 1
+                        ctx.branch("fe:%s:%s:%s" % (fam, entry, "bytes" if enc_ else "text"))
+                        rt.reset(k)
+                        seen = []
+                        orig = R._render_error
+
+                        def spy(template, context, error, seen=seen, orig=orig):
+                            seen.append(context)
+                            return orig(template, context, error)
+                        R._render_error = spy
+                        caught, out, user_ctx = None, None, None
+                        try:
+                            try:
+                                if entry == "render":
+                                    out = t.render()
+                                elif entry == "render_unicode":
+                                    out = t.render_unicode()
+                                else:
+                                    buf = util.FastEncodingBuffer(encoding=enc_) if enc_ else util.FastEncodingBuffer()
+                                    user_ctx = Context(buf)
+                                    user_ctx._outputting_as_unicode = not enc_
+                                    t.render_context(user_ctx)
+                                    out = buf.getvalue()
+                            except BaseException as e:       # noqa
+                                caught = e
+                        finally:
+                            R._render_error = orig
+                        if isinstance(out, bytes):
+                            out = out.decode("utf-8", "replace")
+                        case = {"family": fam, "k": k, "entry": entry, "output_encoding": enc_, "format_exceptions": fe,
+                                "input": files[main], "files": files, "handler": "format-exceptions"}
+                        if not fe:
+                            if caught is not rt.STATE.last:
+                                ctx.violation("exception-object-changed", case, {"caught": repr(caught), "out": out},
+                                              "oracle.format_exceptions")
+                            continue
+                        if caught is not None:
+                            ctx.violation("format-exceptions-no-error-page", case, {"raised": repr(caught)},
+                                          "oracle.format_exceptions")
+                            continue
+                        is_page, names_exc = page_only(out or "")
+                        if entry == "render_context":
+                            # the page exists, but (known finding) not where the caller of render_context can see it
+                            internal = user_ctx._buffer_stack[-1].getvalue() if user_ctx._buffer_stack else ""
+                            if isinstance(internal, bytes):
+                                internal = internal.decode("utf-8", "replace")
+                            ip, ie = page_only(internal)
+                            if len(user_ctx._buffer_stack) != 1 or not (ip and ie):
+                                ctx.violation("format-exceptions-no-error-page", case,
+                                              {"stack_depth": len(user_ctx._buffer_stack), "internal": internal[:200]},
+                                              "oracle.format_exceptions")
+                            elif not (is_page and names_exc) and not any(
+                                    v["site"] == "format-exceptions-render-context-buffer-replaced" for v in ctx.violations):
+                                ctx.violation("format-exceptions-render-context-buffer-replaced", case,
+                                              {"user_buffer": (out or "")[:200], "internal_buffer_has_page": True},
+                                              "oracle.format_exceptions")
+                        elif not (is_page and names_exc):
+                            ctx.violation("format-exceptions-no-error-page", case,
+                                          {"got": (out or "")[:300], "starts_with_page": is_page,
+                                           "names_exception": names_exc}, "oracle.format_exceptions")
+                        # the failing callable's context is an alias: same list object as the caller's
+                        if seen and user_ctx is not None:
+                            st["cases"] += 1
+                            if seen[0]._buffer_stack is not user_ctx._buffer_stack:
+                                ctx.disagree("corr.shared_stack", case, "the error path's context shares the caller's list",
+                                             "a different list object")
+            for tt in ts:
+                tt.format_exceptions = False
+
+
 # --------------------------------------------------------------------------------------------- exception objects
 
 def _factories():
@@ -853,6 +990,7 @@ def run(ctx):
             else:
                 ctx.broke("oracle.fixed:" + name, "fixed witness does not compile")
         handwritten(ctx)
+        format_exceptions_entries(ctx)
         if sets:
             b0 = sets[0][0]
             ctx.sample({"template": G.to_source(b0[0])[0][len(rt.PRELUDE):][:300], "crash_points": "all",
